@@ -169,8 +169,12 @@ class MailConn:
 
 class FakeService:
     """stands in for twisted.application.internet.ClientService"""
-    def __init__(self, world, ep, f):
+    def __init__(self, world, ep, f, retryPolicy=None, clock=None, prepareConnection=None, **kw):
         self.world, self.rc = world, f._RC
+        self.retry_policy = retryPolicy   # called with the number of consecutive failed attempts, as ClientService does
+        self.failed_attempts = 0
+        self.dead = False                 # the retry policy raised: ClientService never schedules another attempt
+        self.re_refuse = 0                # budget of RE-connection attempts that fail at the TCP level (server unreachable)
         self.started = False
         self.conn = None
         self.nconn = 0
@@ -604,8 +608,8 @@ class World:
 
         class Shim:
             @staticmethod
-            def ClientService(ep, f):
-                return FakeService(world, ep, f)
+            def ClientService(ep, f, *a, **kw):
+                return FakeService(world, ep, f, *a, **kw)
         return Shim
 
     def close(self):
@@ -665,7 +669,9 @@ class World:
         for svc in self.services:
             c = svc.conn
             if c is None or not c.alive:
-                if svc.started:
+                if svc.started and not svc.dead:
+                    if mf and svc.re_refuse > 0 and svc.nconn >= 1:
+                        ev.append(("mb.refuse", svc))
                     if svc.hs_slow != "only":
                         ev.append(("mb.connect", svc))
                     if svc.hs_slow:
@@ -723,11 +729,16 @@ class World:
         self.steps += 1
         k = e[0]
         self.trace.append(k)
-        if k == "mb.connect":
+        if k == "mb.refuse":
+            svc = e[1]
+            svc.re_refuse -= 1
+            self._attempt_failed(svc)
+        elif k == "mb.connect":
             svc = e[1]
             if svc.refuse > 0:
                 svc.refuse -= 1
                 svc.failures += 1
+                self._attempt_failed(svc)
                 waiters, svc.when = svc.when, []
                 keep = []
                 for d, faf in waiters:
@@ -738,6 +749,7 @@ class World:
                 svc.when = keep + svc.when
                 return
             svc.nconn += 1
+            svc.failed_attempts = 0
             c = MailConn(self, svc, svc.nconn)
             svc.conn = c
             self._count_open(); c.srv.onOpen()
@@ -749,6 +761,7 @@ class World:
         elif k == "mb.tcp":
             svc = e[1]
             svc.nconn += 1
+            svc.failed_attempts = 0
             c = MailConn(self, svc, svc.nconn)
             c.half_open = True
             svc.conn = c
@@ -872,6 +885,19 @@ class World:
         elif k == "clock.due":
             self.clock.advance(0)
         self.net.links = [l for l in self.net.links if not l.dead()]
+
+    def _attempt_failed(self, svc):
+        """ClientService: a failed attempt asks the retry policy for the delay before the next one"""
+        svc.failed_attempts += 1
+        self.max_failed_attempts = max(getattr(self, "max_failed_attempts", 0), svc.failed_attempts)
+        if svc.retry_policy is not None:
+            try:
+                delay = svc.retry_policy(svc.failed_attempts)
+                if not (float(delay) >= 0):
+                    raise ValueError("retry policy returned %r" % (delay,))
+            except Exception:
+                log.err(None, "retry policy failed: no further connection attempt is scheduled")
+                svc.dead = True
 
     def _count_open(self):
         """the operator reconfigures the server (`--signal-error`) after `late_welcome[0]` connections:
